@@ -6,6 +6,7 @@ lemma.  Core-only.
 import SemaModel.C02.Model
 import SemaModel.Base.KVLemmas
 import SemaModel.Base.BytesLemmas
+import SemaModel.C19.Props
 namespace Sema.C02
 open Sema
 
@@ -1090,5 +1091,380 @@ theorem ArrChain.map (g : Bytes → Bytes) {vals vals' : Id → List Bytes} {chs
         funext i; unfold upd foldArrChange
         by_cases hi : i = ch.id <;> simp [hi]
       rw [this]; exact ih
+
+/-! ## the three value types are lawful: C19's theorems about the *generated* key functions -/
+
+theorem intLawful : Lawful intOps (fun _ => True) where
+  veq_iff a b _ _ := by
+    show (a == b) = true ↔ Gen.Sortable.toByteSortable_int64 a = Gen.Sortable.toByteSortable_int64 b
+    rw [C19.int_inj]; simp
+  lt_iff a b _ _ := by
+    show lexLt (Gen.Sortable.toByteSortable_int64 a) (Gen.Sortable.toByteSortable_int64 b) = a.slt b
+    rw [Bool.eq_iff_iff]; exact C19.int_order a b
+  le_iff _ _ _ _ := rfl
+  pre_iff _ _ _ _ := rfl
+
+theorem fltLawful : Lawful fltOps (fun x => F64.isNaN x = false) where
+  veq_iff a b ha hb := (C19.float_inj a b ha hb).symm
+  lt_iff a b ha hb := by
+    show lexLt (Gen.Sortable.toByteSortable_float64 a) (Gen.Sortable.toByteSortable_float64 b) = F64.lt a b
+    rw [Bool.eq_iff_iff]; exact C19.float_order a b ha hb
+  le_iff a b ha hb := by
+    show F64.le a b = !(F64.lt b a)
+    rw [Bool.eq_iff_iff]
+    simp only [F64.le, F64.lt, ha, hb, Bool.not_false, Bool.true_and, decide_eq_true_eq, Bool.not_eq_true',
+      decide_eq_false_iff_not]
+    omega
+  pre_iff _ _ _ _ := rfl
+
+theorem strLawful : Lawful strOps (fun _ => True) where
+  veq_iff a b _ _ := by
+    show (a == b) = true ↔ Gen.Sortable.toByteSortable_string a = Gen.Sortable.toByteSortable_string b
+    rw [C19.string_inj]; simp
+  lt_iff a b _ _ := C19.string_order a b
+  le_iff _ _ _ _ := rfl
+  pre_iff _ _ _ _ := rfl
+
+/-! ## the shard invariant -/
+
+section
+variable (lower : Bytes → Bytes)
+
+def FltOK (path : List String) (d : Option Val) : Prop := ∀ x ∈ fltVals path d, F64.isNaN x = false
+
+/-- the invariant of one index of the schema relative to the documents `D` of the live points -/
+def Index.Inv (ix : Index) (D : Id → Option Val) : Prop :=
+  match ix.kind with
+  | .str cs => IdxInv strOps ix.kv (fun i => strVals lower cs ix.path (D i))
+  | .strArr cs => IdxInv strOps ix.kv (fun i => arrVals lower cs ix.path (D i))
+  | .int => IdxInv intOps ix.kv (fun i => intVals ix.path (D i))
+  | .flt => IdxInv fltOps ix.kv (fun i => fltVals ix.path (D i)) ∧ ∀ i, FltOK ix.path (D i)
+
+theorem toChange_some {cast : Val → Option V} {path : List String} {pc : PChange} {ch : Change V}
+    (h : toChange cast path pc = some ch) :
+    ch.prev = (getProp pc.prev path).bind cast ∧ ch.cur = (getProp pc.cur path).bind cast := by
+  unfold toChange at h
+  cases hp : getProp pc.prev path <;> cases hc : getProp pc.cur path <;> simp [hp, hc] at h <;> subst h <;> simp
+
+theorem Index.step_inv (ix : Index) {D D' : Id → Option Val} {pcs : List PChange} (inv : ix.Inv lower D)
+    (hc : PChain D pcs D') (hflt : ix.kind = .flt → ∀ pc ∈ pcs, FltOK ix.path pc.cur) :
+    (ix.step lower pcs).Inv lower D' := by
+  obtain ⟨path, kind, kv⟩ := ix
+  cases kind with
+  | str cs =>
+    exact applyBatch_inv strLawful inv (Chain.map (fold lower cs) (toChange_chain castStr path hc))
+      (fun _ _ => ⟨fun _ _ => trivial, fun _ _ => trivial⟩)
+  | strArr cs =>
+    exact applyArrBatch_inv strLawful inv (ArrChain.map (fold lower cs) (toArrChange_chain path hc))
+      (fun _ _ => ⟨fun _ _ => trivial, fun _ _ => trivial⟩)
+  | int =>
+    exact applyBatch_inv intLawful inv (toChange_chain castInt path hc)
+      (fun _ _ => ⟨fun _ _ => trivial, fun _ _ => trivial⟩)
+  | flt =>
+    obtain ⟨hpre, hD'⟩ := hc.preserves (P := FltOK path) inv.2 (hflt rfl)
+    refine ⟨applyBatch_inv fltLawful inv.1 (toChange_chain castFlt path hc) ?_, hD'⟩
+    intro ch hch
+    obtain ⟨pc, hpc, hsome⟩ := List.mem_filterMap.1 hch
+    obtain ⟨h1, h2⟩ := toChange_some hsome
+    refine ⟨?_, ?_⟩
+    · intro v hv
+      apply hpre pc hpc v
+      simp [fltVals, ← h1, hv]
+    · intro v hv
+      apply hflt rfl pc hpc v
+      simp [fltVals, ← h2, hv]
+
+/-- **the invariant of the shard**: every index is exact for the current documents; node ids and
+uuids name points uniquely -/
+structure Inv (st : St) : Prop where
+  idx : ∀ ix ∈ st.idxs, ix.Inv lower (docOf st.pts)
+  ids : NodupIds st.pts
+  uuids : NodupUuids st.pts
+
+/-- what a write batch must satisfy (beyond being accepted): inserted points get node ids that are
+not in use (the id counter, C01) and no NaN is written into a float-indexed property -/
+def OpOK (st : St) (op : WOp) : Prop :=
+  (match op with
+   | .insert ps => NodupIds ps ∧ ∀ p ∈ ps, docOf st.pts p.id = none
+   | _ => True) ∧
+  ∀ pc ∈ (pointChanges st.pts op).2, ∀ ix ∈ st.idxs, ix.kind = .flt → FltOK ix.path pc.cur
+
+theorem nodupStr_pairwise {l : List String} (h : nodupStr l = true) : l.Pairwise (· ≠ ·) := by
+  induction l with
+  | nil => exact List.Pairwise.nil
+  | cons a l ih =>
+    simp only [nodupStr, Bool.and_eq_true, Bool.not_eq_true', List.contains_eq_mem, decide_eq_false_iff_not] at h
+    refine List.pairwise_cons.2 ⟨?_, ih h.2⟩
+    intro b hb hab; exact h.1 (hab ▸ hb)
+
+theorem idOf_eq_none_iff (pts : List Point) (u : String) : idOf pts u = none ↔ ∀ p ∈ pts, p.uuid ≠ u := by
+  simp [idOf, List.find?_eq_none]
+
+theorem idOf_eq_some_iff {pts : List Point} (hu : NodupUuids pts) (u : String) (i : Id) :
+    idOf pts u = some i ↔ ∃ p ∈ pts, p.uuid = u ∧ p.id = i := by
+  induction pts with
+  | nil => simp [idOf]
+  | cons q pts ih =>
+    have ⟨hq, hu'⟩ := List.pairwise_cons.1 hu
+    by_cases hqu : q.uuid = u
+    · have : idOf (q :: pts) u = some q.id := by simp [idOf, hqu]
+      rw [this]
+      constructor
+      · intro h; exact ⟨q, List.mem_cons_self .., hqu, by simpa using h⟩
+      · rintro ⟨p, hp, hpu, hpi⟩
+        rcases List.mem_cons.1 hp with rfl | hp
+        · simp [hpi]
+        · exact absurd (hqu.trans hpu.symm) (hq p hp)
+    · have : idOf (q :: pts) u = idOf pts u := by
+        unfold idOf; rw [List.find?_cons_of_neg (by simpa using hqu)]
+      rw [this, ih hu']
+      constructor
+      · rintro ⟨p, hp, h⟩; exact ⟨p, List.mem_cons_of_mem _ hp, h⟩
+      · rintro ⟨p, hp, hpu, hpi⟩
+        rcases List.mem_cons.1 hp with rfl | hp
+        · exact absurd hpu hqu
+        · exact ⟨p, hp, hpu, hpi⟩
+
+theorem apply_inv {st : St} (inv : Inv lower st) (op : WOp) (ok : OpOK st op) (hacc : st.accepts lower op = true) :
+    Inv lower (st.apply lower op) := by
+  have hchain : PChain (docOf st.pts) (pointChanges st.pts op).2 (docOf (pointChanges st.pts op).1) ∧
+      NodupIds (pointChanges st.pts op).1 ∧ NodupUuids (pointChanges st.pts op).1 := by
+    cases op with
+    | insert ps =>
+      obtain ⟨⟨hnd, hfresh⟩, _⟩ := ok
+      simp only [St.accepts, Bool.and_eq_true, List.all_eq_true, Option.isNone_iff_eq_none] at hacc
+      obtain ⟨⟨hnu, hfu⟩, _⟩ := hacc
+      refine ⟨insert_chain st.pts ps hfresh hnd, ?_, ?_⟩
+      · show NodupIds (st.pts ++ ps)
+        unfold NodupIds
+        rw [List.pairwise_append]
+        refine ⟨inv.ids, hnd, ?_⟩
+        intro a ha b hb
+        exact (docOf_eq_none_iff st.pts b.id).1 (hfresh b hb) a ha
+      · show NodupUuids (st.pts ++ ps)
+        unfold NodupUuids
+        rw [List.pairwise_append]
+        refine ⟨inv.uuids, ?_, ?_⟩
+        · have := nodupStr_pairwise hnu
+          rwa [List.pairwise_map] at this
+        · intro a ha b hb
+          exact (idOf_eq_none_iff st.pts b.uuid).1 (hfu b hb) a ha
+    | update us => exact update_chain st.pts us inv.ids inv.uuids
+    | delete us => exact delete_chain st.pts us inv.ids inv.uuids
+  obtain ⟨hc, hi, hu⟩ := hchain
+  refine ⟨?_, hi, hu⟩
+  intro ix' hix'
+  simp only [St.apply, List.mem_map] at hix'
+  obtain ⟨ix, hix, rfl⟩ := hix'
+  exact Index.step_inv lower ix (inv.idx ix hix) hc (fun hk pc hpc => ok.2 pc hpc ix hix hk)
+
+theorem write_inv {st : St} (inv : Inv lower st) (op : WOp) (ok : OpOK st op) : Inv lower (st.write lower op) := by
+  unfold St.write
+  split
+  · rename_i h; exact apply_inv lower inv op ok h
+  · exact inv
+
+/-- a history of write batches -/
+def run (st : St) (ops : List WOp) : St := ops.foldl (St.write lower) st
+
+def HistOK : St → List WOp → Prop
+  | _, [] => True
+  | st, op :: rest => OpOK st op ∧ HistOK (st.write lower op) rest
+
+/-- the freshly created shard -/
+def St.init (schema : List (List String × Kind)) (bolt : Bool) : St :=
+  { pts := [], idxs := schema.map fun s => ⟨s.1, s.2, KV.empty⟩, bolt := bolt }
+
+theorem idxInv_empty (o : Ops V) : IdxInv o KV.empty (fun _ => []) :=
+  ⟨KV.sorted_empty, fun k b h => by simp [KV.get_empty] at h, fun i k => by simp [post_empty]⟩
+
+theorem init_inv (schema : List (List String × Kind)) (bolt : Bool) : Inv lower (St.init schema bolt) := by
+  refine ⟨?_, List.Pairwise.nil, List.Pairwise.nil⟩
+  intro ix hix
+  simp only [St.init, List.mem_map] at hix
+  obtain ⟨s, _, rfl⟩ := hix
+  obtain ⟨p, k⟩ := s
+  cases k with
+  | str cs => exact idxInv_empty strOps
+  | strArr cs => exact idxInv_empty strOps
+  | int => exact idxInv_empty intOps
+  | flt =>
+    refine ⟨idxInv_empty fltOps, fun i x hx => ?_⟩
+    have hd : docOf (St.init schema bolt).pts i = none := rfl
+    simp [fltVals, hd, getProp] at hx
+
+/-! ## queries -/
+
+def Leaf.Valid : Leaf → Prop
+  | .flt _ _ v e => F64.isNaN v = false ∧ F64.isNaN e = false
+  | _ => True
+
+mutual
+def Query.Valid : Query → Prop
+  | .leaf l => l.Valid
+  | .and qs => qs.Valid
+  | .or qs => qs.Valid
+def QList.Valid : QList → Prop
+  | .nil => True
+  | .cons q qs => q.Valid ∧ qs.Valid
+end
+
+theorem index_some {st : St} {path : List String} {ix : Index} (h : st.index path = some ix) :
+    ix ∈ st.idxs ∧ ix.path = path := by
+  unfold St.index at h
+  exact ⟨List.mem_of_find?_eq_some h, by simpa using List.find?_some h⟩
+
+theorem evalLeaf_spec {st : St} (inv : Inv lower st) (l : Leaf) (hwf : l.wf st = true) (hval : l.Valid) (i : Id) :
+    i ∈ evalLeaf lower st l ↔ l.sat lower st i := by
+  cases l with
+  | str path op v e =>
+    simp only [Leaf.wf] at hwf
+    cases hix : st.index path with
+    | none => simp [hix] at hwf
+    | some ix =>
+      obtain ⟨p, kind, kv⟩ := ix
+      obtain ⟨hmem, hp⟩ := index_some hix
+      simp only at hp; subst hp
+      cases kind
+      case strArr => simp [hix] at hwf
+      case int => simp [hix] at hwf
+      case flt => simp [hix] at hwf
+      clear hwf
+      rename_i cs
+      have hinv : IdxInv strOps kv (fun i => strVals lower cs p (docOf st.pts i)) := inv.idx _ hmem
+      simp only [evalLeaf, hix, searchStr, Leaf.sat]
+      rw [search_spec strLawful hinv (fun _ _ _ => trivial) trivial trivial]
+      constructor
+      · intro h; exact ⟨cs, kv, rfl, h⟩
+      · rintro ⟨cs', kv', heq, h⟩
+        simp only [Option.some.injEq, Index.mk.injEq, Kind.str.injEq, true_and] at heq
+        obtain ⟨rfl, rfl⟩ := heq
+        exact h
+  | strArr path all vs =>
+    simp only [Leaf.wf, Bool.and_eq_true, Bool.not_eq_true', List.isEmpty_eq_false_iff] at hwf
+    obtain ⟨hwf, hne⟩ := hwf
+    cases hix : st.index path with
+    | none => simp [hix] at hwf
+    | some ix =>
+      obtain ⟨p, kind, kv⟩ := ix
+      obtain ⟨hmem, hp⟩ := index_some hix
+      simp only at hp; subst hp
+      cases kind
+      case str => simp [hix] at hwf
+      case int => simp [hix] at hwf
+      case flt => simp [hix] at hwf
+      clear hwf
+      rename_i cs
+      have hinv : IdxInv strOps kv (fun i => arrVals lower cs p (docOf st.pts i)) := inv.idx _ hmem
+      simp only [evalLeaf, hix, searchStrArr, Leaf.sat]
+      rw [searchArr_spec strLawful hinv (fun _ _ _ => trivial) _ (fun _ _ => trivial) (by simpa using hne)]
+      have hveq : ∀ (a q : Bytes), strOps.veq a q = true ↔ a = q := by intro a q; simp [strOps]
+      have hmemv : ∀ q, (∃ a ∈ arrVals lower cs p (docOf st.pts i), strOps.veq a (fold lower cs q) = true) ↔
+          fold lower cs q ∈ arrVals lower cs p (docOf st.pts i) := by
+        intro q; constructor
+        · rintro ⟨a, ha, h⟩; rw [← (hveq _ _).1 h]; exact ha
+        · intro h; exact ⟨_, h, (hveq _ _).2 rfl⟩
+      have hbody : (if all = true then ∀ q ∈ vs.map (fold lower cs), ∃ a ∈ arrVals lower cs p (docOf st.pts i), strOps.veq a q = true
+            else ∃ q ∈ vs.map (fold lower cs), ∃ a ∈ arrVals lower cs p (docOf st.pts i), strOps.veq a q = true) ↔
+          (if all = true then ∀ q ∈ vs, fold lower cs q ∈ arrVals lower cs p (docOf st.pts i)
+            else ∃ q ∈ vs, fold lower cs q ∈ arrVals lower cs p (docOf st.pts i)) := by
+        cases all
+        · simp only [Bool.false_eq_true, if_false, List.mem_map]
+          constructor
+          · rintro ⟨_, ⟨q, hq, rfl⟩, h⟩; exact ⟨q, hq, (hmemv q).1 h⟩
+          · rintro ⟨q, hq, h⟩; exact ⟨_, ⟨q, hq, rfl⟩, (hmemv q).2 h⟩
+        · simp only [if_true, List.mem_map]
+          constructor
+          · intro h q hq; exact (hmemv q).1 (h _ ⟨q, hq, rfl⟩)
+          · rintro h _ ⟨q, hq, rfl⟩; exact (hmemv q).2 (h q hq)
+      rw [hbody]
+      constructor
+      · intro h; exact ⟨cs, kv, rfl, h⟩
+      · rintro ⟨cs', kv', heq, h⟩
+        simp only [Option.some.injEq, Index.mk.injEq, Kind.strArr.injEq, true_and] at heq
+        obtain ⟨rfl, rfl⟩ := heq
+        exact h
+  | int path op v e =>
+    simp only [Leaf.wf, Bool.and_eq_true] at hwf
+    obtain ⟨hwf, _⟩ := hwf
+    cases hix : st.index path with
+    | none => simp [hix] at hwf
+    | some ix =>
+      obtain ⟨p, kind, kv⟩ := ix
+      obtain ⟨hmem, hp⟩ := index_some hix
+      simp only at hp; subst hp
+      cases kind
+      case str => simp [hix] at hwf
+      case strArr => simp [hix] at hwf
+      case flt => simp [hix] at hwf
+      clear hwf
+      have hinv : IdxInv intOps kv (fun i => intVals p (docOf st.pts i)) := inv.idx _ hmem
+      simp only [evalLeaf, hix, Leaf.sat]
+      rw [search_spec intLawful hinv (fun _ _ _ => trivial) trivial trivial]
+      constructor
+      · intro h; exact ⟨kv, rfl, h⟩
+      · rintro ⟨kv', heq, h⟩
+        simp only [Option.some.injEq, Index.mk.injEq, true_and] at heq
+        subst heq
+        exact h
+  | flt path op v e =>
+    simp only [Leaf.wf, Bool.and_eq_true] at hwf
+    obtain ⟨hwf, _⟩ := hwf
+    cases hix : st.index path with
+    | none => simp [hix] at hwf
+    | some ix =>
+      obtain ⟨p, kind, kv⟩ := ix
+      obtain ⟨hmem, hp⟩ := index_some hix
+      simp only at hp; subst hp
+      cases kind
+      case str => simp [hix] at hwf
+      case strArr => simp [hix] at hwf
+      case int => simp [hix] at hwf
+      clear hwf
+      have hinv : IdxInv fltOps kv (fun i => fltVals p (docOf st.pts i)) ∧ ∀ i, FltOK p (docOf st.pts i) := inv.idx _ hmem
+      simp only [evalLeaf, hix, Leaf.sat]
+      rw [search_spec fltLawful hinv.1 (fun i x hx => hinv.2 i x hx) hval.1 hval.2]
+      constructor
+      · intro h; exact ⟨kv, rfl, h⟩
+      · rintro ⟨kv', heq, h⟩
+        simp only [Option.some.injEq, Index.mk.injEq, true_and] at heq
+        subst heq
+        exact h
+  | idEq u => simp [evalLeaf, searchIds, Leaf.sat]
+  | idAny us => simp [evalLeaf, searchIds, Leaf.sat, List.mem_filterMap]
+
+mutual
+theorem eval_spec {st : St} (inv : Inv lower st) : ∀ (q : Query), q.wf st = true → q.Valid → ∀ i,
+    (i ∈ eval lower st q ↔ q.sat lower st i)
+  | .leaf l, hwf, hv, i => by
+    simp only [eval, Query.sat]
+    exact evalLeaf_spec lower inv l (by simpa [Query.wf] using hwf) hv i
+  | .and qs, hwf, hv, i => by
+    simp only [Query.wf, Bool.and_eq_true] at hwf
+    have hne : evalL lower st qs ≠ [] := by
+      cases qs with
+      | nil => simp at hwf
+      | cons q qs => simp [evalL]
+    simp only [eval, Query.sat]
+    rw [mem_interAll _ hne]
+    exact (evalL_spec inv qs hwf.2 hv i).1
+  | .or qs, hwf, hv, i => by
+    simp only [Query.wf, Bool.and_eq_true] at hwf
+    simp only [eval, Query.sat]
+    rw [mem_unionAll]
+    exact (evalL_spec inv qs hwf.2 hv i).2
+theorem evalL_spec {st : St} (inv : Inv lower st) : ∀ (qs : QList), qs.wf st = true → qs.Valid → ∀ i,
+    ((∀ s ∈ evalL lower st qs, i ∈ s) ↔ qs.satAll lower st i) ∧
+    ((∃ s ∈ evalL lower st qs, i ∈ s) ↔ qs.satAny lower st i)
+  | .nil, _, _, i => by simp [evalL, QList.satAll, QList.satAny]
+  | .cons q qs, hwf, hv, i => by
+    simp only [QList.wf, Bool.and_eq_true] at hwf
+    have h1 := eval_spec inv q hwf.1 hv.1 i
+    have h2 := evalL_spec inv qs hwf.2 hv.2 i
+    simp only [evalL, QList.satAll, QList.satAny, List.mem_cons, forall_eq_or_imp, exists_eq_or_imp, h1, h2.1, h2.2,
+      and_self]
+end
+
+end
 
 end Sema.C02
